@@ -1,9 +1,11 @@
 """C06 - see MANIFEST below and DESIGN.md section 4/C06."""
+import random
+from lib import common
 from checks import pfcp_common as pc
 
 MANIFEST = dict(
     text='Kernel-checked: a request whose (source, sequence) is in the receive-transaction table leaves the ENTIRE state identical and is answered with the cached datagram (or not at all if none was produced) - for every message and state; keys compare exactly; the retention expiry releases the entry. Tie: differential run incl. duplicates from several peers using equal sequence numbers and injected retention expiries; monitor checks no driver call / no state change / byte-identical re-sent datagram on the real server.',
-    note="Transaction keys are modelled as (peer, sequence) pairs; the string formatting 'addr-seq' is injective for ip:port addresses (no '-' in them) - not proved in Coq yet. Timers are injected events. ",
+    note="Transaction keys are modelled as (peer, sequence) pairs; the string keys fmt.Sprintf(format, addr, seq) at the sites regenerated from the source are proved injective for ANY address string and sequence number (C06_string_key_injective), and the rendering model is compared with the keys the real constructors build (IPv4/IPv6/zone addresses, sequence extremes). Timers are injected events. ",
     technique='Coq step lemmas (duplicate = identity on the state) + differential run + byte-equality monitor',
     design='4/C06')
 
@@ -13,6 +15,68 @@ GEN = dict(weights=dict(dup=30, timeout=14, hb=8, est=12, mod=14), npeers=3, big
 N_QUICK, N_THOROUGH = 120, 3000
 
 
+def cstr(s):
+    assert all(32 <= ord(c) < 127 for c in s)
+    return '"' + s.replace('"', '""') + '"'
+
+
+def txkey_phase(ctx, info, coverage):
+    """model/TxKey.trid vs the keys NewTxTransaction/NewRxTransaction build"""
+    rnd = random.Random(ctx.seed + 6)
+    cases = []
+    ips = ["127.0.0.1", "10.0.0.200", "255.255.255.255", "0.0.0.0", "::1", "fe80::1", "2001:db8::10:1", "::ffff:1.2.3.4"]
+    seqs = [0, 1, 9, 10, 99, 100, 2**24 - 1, 2**24, 2**31, 2**32 - 1]
+    for ip in ips:
+        for sq in seqs:
+            zone = rnd.choice(["", "", "eth0", "a-b", "1-2"]) if ":" in ip and not ip.startswith("::ffff") else ""
+            cases.append({"ip": ip, "port": rnd.choice([8805, 0, 1, 65535, 80]), "zone": zone, "seq": sq})
+    # pairs that collide under a format without (or with a digit-like) separator: the port's last digit moves to the sequence number
+    for port, sq in [(8805, 1), (8805, 0), (65535, 12), (10, 7)]:
+        for ip in ("127.0.0.1", "::1"):
+            cases.append({"ip": ip, "port": port, "zone": "", "seq": sq})
+            cases.append({"ip": ip, "port": port // 10, "zone": "", "seq": int(str(port % 10) + str(sq))})
+    for _ in range(60 if ctx.tier == "quick" else 2000):
+        v6 = rnd.random() < 0.4
+        ip = ":".join("%x" % rnd.randrange(65536) for _ in range(8)) if v6 else ".".join(str(rnd.randrange(256)) for _ in range(4))
+        cases.append({"ip": ip, "port": rnd.randrange(65536), "zone": rnd.choice(["", "", "z-%d" % rnd.randrange(100)]) if v6 else "",
+                      "seq": rnd.choice([rnd.randrange(2**32), rnd.randrange(2**24), rnd.randrange(1000)])})
+    res, log = common.run_harness(ctx, info["harness"], "txkey", cases, timeout=300)
+    if res is None:
+        ctx.violation({"property": "C06", "broken": "txkey harness run failed: " + log[-1200:]}, no_input=True)
+        return
+    items = ["(%s, %d, %s, %s)" % (cstr(r["addr"]), c["seq"], cstr(r["tx"]), cstr(r["rx"])) for c, r in zip(cases, res)]
+    body = """
+Definition key_agrees (c : string * N * string * string) : bool :=
+  match c with (a, n, tx, rx) => String.eqb (trid a n) tx && String.eqb (trid a n) rx end.
+Fixpoint bad_idx {A} (f : A -> bool) (l : list A) (i : N) : list N :=
+  match l with [] => [] | x :: r => if f x then bad_idx f r (i + 1) else i :: bad_idx f r (i + 1) end.
+Local Open Scope string_scope.
+Definition kcases : list (string * N * string * string) := [""" + ";\n".join(items) + """].
+Definition kmism := Eval vm_compute in bad_idx key_agrees kcases 0.
+"""
+    out, clog = common.run_coq_cases(ctx, "cases_c06_txkey", body, ["TxKey"], ["kmism"])
+    if out is None:
+        ctx.violation({"property": "C06", "broken": "txkey cases do not compile: " + clog[-800:]}, no_input=True)
+        return
+    mism = common.parse_N_list(out["kmism"])
+    coverage["txkey_cases"] = len(cases)
+    coverage["txkey_mismatches"] = len(mism)
+    coverage["evaluations"] = coverage.get("evaluations", 0) + len(cases)
+    # two different (address, sequence) pairs with the same real key would be a failing input for the property itself
+    seen = {}
+    for c, r in zip(cases, res):
+        for k in (r["tx"], r["rx"]):
+            prev = seen.setdefault(k, (r["addr"], c["seq"]))
+            if prev != (r["addr"], c["seq"]):
+                ctx.violation({"property": "C06", "what": "two different (address, sequence number) pairs share one transaction key",
+                               "key": k, "pairs": [prev, (r["addr"], c["seq"])]})
+                return
+    if mism:
+        i = mism[0]
+        ctx.violation({"property": "C06", "correspondence": "model/TxKey.trid <> key built by the real transaction constructors",
+                       "case": cases[i], "result": res[i]}, no_input=True)
+
+
 def run(ctx, replay=None):
     return pc.run_property(ctx, "C06", pc.mon_c06, GEN, N_QUICK, N_THOROUGH, replay=replay, rule=RULE,
-                           assumptions=[pc.PFCP_NOTE])
+                           assumptions=[pc.PFCP_NOTE], extra_phase=txkey_phase)
